@@ -112,7 +112,7 @@ func exploreDKG(c *Ctx, n, t int, hooks dkgHooks, maxStates int) (states, transi
 }
 
 func checkC05(c *Ctx) {
-	c.Rule = "breadth-first exploration of the real BaseNodeService.ProcessMessage (node 0, in-memory state store) over the public event alphabet {init, confirm, decline, commit, deal, response, master key, the four error reports, signing proposal} x participant ids {0..n-1, n, 99} x variants {valid, late-timestamped, empty payload, mismatching key, duplicate (= same event again)} to a fixpoint of (public projection of the round, monitor state), for every (n,t) in the tier's bound. History monitors M1 (exactly-once, in phase order, by invited participants; signing-ready only after all five phases), M2 (cancelled never becomes signing-ready), M3 (rejected => round, operation pool and signature store unchanged), M4 (decline / error / late / differing key accepted => cancelled). distinct = distinct abstract states reached"
+	c.Rule = "breadth-first exploration of the real BaseNodeService.ProcessMessage (node 0, in-memory state store) over the public event alphabet {init, confirm, decline, commit, deal, response, master key, the four error reports, signing proposal} x participant ids {0..n-1, n, 99} x variants {valid, late-timestamped, empty payload, mismatching key, duplicate (= same event again)} to a fixpoint of (public projection of the round, monitor state), for every (n,t) in the tier's bound. History monitors M1 (exactly-once, in phase order, by invited participants; signing-ready only after all five phases), M2 (cancelled never becomes signing-ready), M3 (rejected => round, operation pool and signature store unchanged), M4 (decline / error / late / differing key accepted => cancelled), M5 (a well-formed timely failure report or decline by a participant whose contribution of the running phase is awaited is not refused). distinct = distinct abstract states reached"
 	c.Assumptions = []string{"MemState substituted for LevelDB (same Get/Set semantics)", "explored from one node's point of view: deals are the per-recipient ones plus the self-confirmation", "messages are harness-built and signed with the claimed participant's registered key (unknown ids are claimed by a legitimate sender)", "a missing round and a freshly created idle round are treated as the same round state (byte-exactness of rejected input is C18's subject)"}
 	maxN := c.Pick(3, 4)
 	c.Exhaustive = true
@@ -148,6 +148,16 @@ func checkC05(c *Ctx) {
 					for _, k := range res.Diff {
 						if k != world.Topic+"_fsm_state" {
 							c.Violate("C05/M3-rejected-event-changed-store:"+k, fmt.Sprintf("%s in %s returned an error but %s changed", ev.Label, res.Before, k), wit())
+						}
+					}
+					// M5: a well-formed, timely failure report (or decline) by an invited participant whose
+					// contribution of the running phase is still awaited must be honoured, not refused
+					if (ev.Variant == "valid" || ev.Variant == "hostile-text") && ev.Known && mon.Inited && !mon.Cancelled && mon.Phase < 5 {
+						want := map[string]int{"decline": 0, "commiterr": 1, "dealerr": 2, "responseerr": 3, "masterkeyerr": 4}
+						if ph, ok := want[ev.Kind]; ok && ph == mon.Phase && mon.Got[ph]&(1<<uint(ev.P)) == 0 && !(mon.KeyGood && mon.KeyBad) {
+							c.Violate("C05/M5-failure-report-refused:"+ev.Kind, fmt.Sprintf("%s by awaited participant %d refused in %s: %v", ev.Label, ev.P, res.Before, res.Err), wit())
+						} else if ok {
+							c.Add("failure_reports_refused_out_of_phase_(not_judged)", 1)
 						}
 					}
 					return mon, false
